@@ -10,7 +10,7 @@ TAGGER_REAL = ['bamtagmultiome.run_multiome_tagging_cmd (argument parsing .. sta
                'fragment / molecule classes (NlaIII, CHIC)', 'sorted_bam_file', 'add_readgroups_to_header / replace_bam_header (pysam branch)', 'sort_and_index',
                'tag_multiome_multi_processing (job construction, generate_tasks)', 'tagging.run_tagging_tasks / run_tagging_task', 'merge_bams (pysam.merge branch)',
                'htslib BAM/BAI I/O on real files in a scratch directory']
-TAGGER_STUB = ['SimPool bound to bamtagmultiome.Pool (in-process real task bodies, pickled args/results, seeded start/complete/deliver order and width)',
+TAGGER_STUB = ['SimPool bound to bamtagmultiome.Pool: the Scheduler (seeded / explicit decisions) owns start, completion and delivery order, width, worker loss and worker exceptions; workers are either in-process (atomic real task bodies, pickled args/results) or REAL forked processes fed over pipes (private module state, real pickling; the scheduler decides which free worker gets a task and whose result is observed next)',
                'SimClock.sleep for bamtagmultiome.sleep (5 simulated seconds, 0 real)', 'uuid4 from a separate seeded stream (bamtagmultiome.uuid, tagging.uuid4, bamFunctions.uuid)',
                'each lifetime runs in a fresh fork of the warm shard process']
 
@@ -76,7 +76,7 @@ def sim_for(case, mode):
     if mode.get('api'):
         sim['api'] = mode['api']
         sim['tiling'] = mode['tiling']
-    for k in ('faults', 'worker_faults', 'crash', 'trace', 'real_pool', 'fsize'):
+    for k in ('faults', 'worker_faults', 'crash', 'trace', 'real_pool', 'fsize', 'isolation'):
         if mode.get(k) is not None:
             sim[k] = mode[k]
     return sim
